@@ -674,6 +674,13 @@ impl ISocket for RouterSocket {
     if !self.core.is_running() {
       return Err(ZmqError::InvalidState("Socket is closing".into()));
     }
+    // Frames of a message that recv() started to hand out one by one come first: the rest of that
+    // message is returned before anything newer.
+    if let Some(rest) = self.frame_recv_buffer.lock().take() {
+      if !rest.is_empty() {
+        return Ok(FrameBatch::from(Vec::from(rest)));
+      }
+    }
     let rcvtimeo_opt = self.core.core_state.read().options.rcvtimeo;
     let (pipe_read_id, raw_batch) = self.recv_logical_finalized(rcvtimeo_opt).await?;
     let (identity_blob, payload) = self.process_incoming_zmtp_message(pipe_read_id, raw_batch)?;
